@@ -1,9 +1,253 @@
-//! C02 — placeholder until the slot world is built (see world.rs).
+//! C02 — the check verdict agrees with the documented semantic rules, in both directions.
+//!
+//! Deviation-bounded exhaustive exploration of the slot world (quick <= 2 deviations, thorough <= 3;
+//! use site, host kind and host position are cost-0 and always fully expanded); the reference model
+//! of world.rs says which documented rules a world violates.
+
+use crate::checks::c01::Attribution;
+use crate::cli;
+use crate::explore::explore;
+use crate::front::{self, Verdict};
 use crate::report::Ctx;
-use serde_json::Value;
+use crate::util::Scratch;
+use crate::world::{self, World};
+use rayon::prelude::*;
+use serde_json::{json, Value};
+use std::collections::BTreeSet;
+use std::time::Duration;
 
-pub fn label_oracle_into(_ctx: &mut Ctx) {}
+pub fn worlds(bound: u32) -> Vec<World> {
+    let mut out = vec![];
+    let mut seen = std::collections::HashSet::new();
+    explore(bound, |ch| {
+        let w = world::world(ch);
+        if seen.insert(crate::util::fnv(&w.text())) {
+            out.push(w);
+        }
+    });
+    out
+}
 
-pub fn replay_label(_case: &Value) -> Result<String, String> {
-    Err("not built".into())
+#[derive(Debug, Clone)]
+pub struct Judged {
+    pub class: &'static str,
+    pub sig: Option<String>,
+    pub codes: BTreeSet<String>,
+    pub detail: String,
+}
+
+pub fn judge(w: &World) -> Judged {
+    let text = w.text();
+    let (verdict, _) = front::check_texts(&[&text]);
+    let codes = verdict.codes();
+    let vio: BTreeSet<String> = w.violated.iter().map(|s| s.to_string()).collect();
+    let mk = |class: &'static str, sig: Option<String>, detail: String| Judged { class, sig, codes: codes.clone(), detail };
+    if let Verdict::Panic(loc) = &verdict {
+        return mk("panic", Some(format!("panic@{}", loc)), format!("analysis panicked at {}", loc));
+    }
+    if codes.contains("P0002") || codes.contains("P0031") {
+        return mk("world-does-not-parse", Some(format!("world-does-not-parse:{}", verdict.short())), "the generated world is rejected by the parser".into());
+    }
+    let only_9999 = !codes.is_empty() && codes.iter().all(|c| c == "P9999");
+    if only_9999 {
+        return mk("unsupported(P9999)", None, String::new());
+    }
+    let rule_codes: BTreeSet<String> = codes.iter().filter(|c| *c != "P9999").cloned().collect();
+    if vio.is_empty() {
+        if codes.is_empty() {
+            mk("agree-ok", None, String::new())
+        } else {
+            mk("false-rejection", Some(format!("valid->{}", rule_codes.iter().cloned().collect::<Vec<_>>().join("+"))), format!("a world that satisfies every rule is rejected with {:?}", codes))
+        }
+    } else if vio.len() == 1 {
+        let r = vio.iter().next().unwrap();
+        if codes.contains(r) {
+            mk("agree-single-fault", None, String::new())
+        } else if codes.is_empty() {
+            mk("missed", Some(format!("{}->OK", r)), format!("the world violates {} but check says OK", r))
+        } else {
+            mk("wrong-code", Some(format!("{}->{}", r, rule_codes.iter().cloned().collect::<Vec<_>>().join("+"))), format!("the world violates {} only, reported {:?}", r, codes))
+        }
+    } else if codes.is_empty() {
+        mk("missed-multi", Some(format!("{}->OK", vio.iter().cloned().collect::<Vec<_>>().join("+"))), format!("the world violates {:?} but check says OK", vio))
+    } else {
+        mk("agree-multi-fault", None, String::new())
+    }
+}
+
+pub fn run(ctx: &mut Ctx) {
+    let bound = if ctx.tier.thorough() { 3 } else { 2 };
+    let ws = worlds(bound);
+    ctx.rule = "slot world (types with enum / subrange / struct / array / alias slots, Callee, Fn, a host POU with variable, constant, external, function-block invocation and use-site slots, Main, a configuration with global / task slots): every assignment of the slots with at most `deviation_bound` costly deviations (valid options and planted faults alike); the use site (31 statement/expression positions), host kind and host position are cost-0 and fully expanded; distinct = distinct world text".into();
+    ctx.bounds.insert("deviation_bound".into(), json!(bound));
+    ctx.bounds.insert("use_sites".into(), json!(world::SITES.len()));
+    ctx.assumptions.push("the reference model decides what each world violates from the slot values (documented Passes/Fails shapes of each rule); P9999-only answers are counted as 'declared unsupported', never as pass or fail".into());
+    let judged: Vec<Judged> = ws.par_iter().map(judge).collect();
+    let mut order: Vec<usize> = (0..ws.len()).collect();
+    order.sort_by_key(|i| (ws[*i].labels.len(), *i));
+    let mut attr = Attribution::new();
+    let total = ws.len() as u64;
+    let mut judged_n = 0u64;
+    let mut unsupported = 0u64;
+    for (n, i) in order.iter().enumerate() {
+        let (w, j) = (&ws[*i], &judged[*i]);
+        ctx.evaluations += 1;
+        ctx.transitions += 1;
+        ctx.distinct_hash(crate::util::fnv(&w.text()));
+        ctx.outcome(j.class);
+        if j.class == "unsupported(P9999)" {
+            unsupported += 1;
+        } else {
+            judged_n += 1;
+        }
+        if let Some(sig) = &j.sig {
+            let sigs: BTreeSet<String> = [sig.clone()].into_iter().collect();
+            let key = attr.key_for("world", &w.labels, &sigs);
+            ctx.fail(&key, &format!("[{}] {} ;; violated per reference model: {:?}, reported: {:?}", w.labels.join(","), j.detail, w.violated, j.codes), json!({"labels": w.labels, "text": w.text(), "violated": w.violated.iter().collect::<Vec<_>>()}));
+        }
+        if ctx.want_sample(n as u64, total) {
+            ctx.sample(json!({"labels": w.labels, "violated": w.violated.iter().collect::<Vec<_>>(), "reported": j.codes, "text": crate::util::short(&w.text(), 300)}));
+        }
+    }
+    ctx.states = total;
+    ctx.extra.insert("worlds_judged".into(), json!(judged_n));
+    ctx.extra.insert("worlds_declared_unsupported_P9999".into(), json!(unsupported));
+    if judged_n * 10 < total * 9 {
+        ctx.extra.insert("degraded".into(), json!("more than 10% of the worlds were answered with P9999 only"));
+    }
+
+    // bind the in-process result to the CLI: a systematic subset through `ironplcc check`
+    let stride = (ws.len() / if ctx.tier.thorough() { 400 } else { 120 }).max(1);
+    let subset: Vec<usize> = (0..ws.len()).filter(|i| i % stride == 0).collect();
+    let scratch = Scratch::new("c02");
+    let cli_res: Vec<(usize, Option<String>)> = subset
+        .par_iter()
+        .map(|i| {
+            let w = &ws[*i];
+            let dir = scratch.sub(&format!("w{}", i));
+            let tmp = scratch.sub(&format!("t{}", i));
+            let f = dir.join("world.st");
+            std::fs::write(&f, w.text()).unwrap();
+            let r = cli::run(&["check", f.to_str().unwrap()], &tmp, Duration::from_secs(30));
+            let cli_codes: BTreeSet<String> = r.diags.iter().map(|d| d.code.clone()).collect();
+            let j = &judged[*i];
+            let ok = (r.exit == Some(0)) == j.codes.is_empty() && cli_codes == j.codes && !r.crashed();
+            (*i, if ok { None } else { Some(format!("binary: {} ; in-process codes {:?}", r.summary(), j.codes)) })
+        })
+        .collect();
+    for (i, r) in cli_res {
+        ctx.traces += 1;
+        if let Some(m) = r {
+            ctx.fail("binary-differs-from-in-process", &format!("[{}] {}", ws[i].labels.join(","), m), json!({"labels": ws[i].labels, "text": ws[i].text()}));
+        }
+    }
+    ctx.extra.insert("cli_runs".into(), json!(ctx.traces));
+}
+
+pub fn replay(case: &Value) -> Result<String, String> {
+    let labels: Vec<String> = case["labels"].as_array().ok_or("labels")?.iter().map(|x| x.as_str().unwrap_or("").to_string()).collect();
+    let ws = worlds(3);
+    let w = ws.iter().find(|w| w.labels == labels).ok_or("world is not in the enumerated space any more")?;
+    let j = judge(w);
+    match j.sig {
+        None => Ok(format!("agrees: {} (violated {:?}, reported {:?})", j.class, w.violated, j.codes)),
+        Some(s) => Err(format!("{} :: {}", s, j.detail)),
+    }
+}
+
+// ---------------------------------------------------------------------------
+// C05(c): labels of diagnostics for planted faults
+
+fn label_problems(w: &World) -> Vec<(String, String)> {
+    let mut out = vec![];
+    // one file; remember where each declaration sits
+    let mut text = String::new();
+    let mut ranges = vec![];
+    let mut boundaries: BTreeSet<usize> = BTreeSet::new();
+    for d in &w.decls {
+        let base = text.len();
+        let t = d.text();
+        let mut off = 0usize;
+        for word in t.split(' ') {
+            let wtrim = word.trim_end_matches('\n');
+            boundaries.insert(base + off);
+            boundaries.insert(base + off + wtrim.len());
+            // pieces of composite words (Level#High, T#100ms) are lexemes of their own
+            for (k, c) in wtrim.char_indices() {
+                if c == '#' {
+                    boundaries.insert(base + off + k);
+                    boundaries.insert(base + off + k + 1);
+                }
+            }
+            off += word.len() + 1;
+        }
+        text.push_str(&t);
+        ranges.push((base, text.len(), d.faulty, d.name.clone()));
+    }
+    let (_, diags) = front::check_texts(&[&text]);
+    for dg in diags {
+        if dg.code == "P9999" {
+            continue;
+        }
+        let l = &dg.primary;
+        let f = l.file_id.to_string();
+        if f.is_empty() {
+            out.push((format!("{}/primary-label-without-file", dg.code), format!("the primary label of {} names no file", dg.code)));
+            continue;
+        }
+        let (s, e) = (l.location.start, l.location.end);
+        if !(s <= e && e <= text.len()) || !text.is_char_boundary(s) || !text.is_char_boundary(e) {
+            out.push((format!("{}/primary-label-outside-text", dg.code), format!("label {}..{} of {} in a text of {} bytes", s, e, dg.code, text.len())));
+            continue;
+        }
+        if !w.violated.contains(dg.code.as_str()) || w.violated.len() != 1 {
+            continue;
+        }
+        // planted single fault: the label must lie inside the faulty declaration, on lexeme boundaries
+        let inside = ranges.iter().any(|(a, b, faulty, _)| *faulty && *a <= s && e <= *b);
+        if s == e {
+            out.push((format!("{}/primary-label-is-empty", dg.code), format!("label {}..{} of {} covers no text", s, e, dg.code)));
+        } else if !inside {
+            let at = ranges.iter().find(|(a, b, _, _)| *a <= s && s < *b).map(|r| r.3.clone()).unwrap_or_else(|| "?".into());
+            out.push((
+                format!("{}/primary-label-outside-the-faulty-declaration", dg.code),
+                format!("label {}..{} ({:?}) of {} lies in declaration {} which is not the faulty one", s, e, crate::util::short(&text[s..e], 20), dg.code, at),
+            ));
+        } else if !boundaries.contains(&s) || !boundaries.contains(&e) {
+            out.push((format!("{}/primary-label-splits-a-lexeme", dg.code), format!("label {}..{} ({:?}) of {} does not begin and end on lexeme boundaries", s, e, crate::util::short(&text[s..e], 20), dg.code)));
+        }
+    }
+    out
+}
+
+/// Called by C05: runs the label oracle over the single-fault worlds and records under C05 keys.
+pub fn label_oracle_into(ctx: &mut Ctx) {
+    let ws: Vec<World> = worlds(1).into_iter().filter(|w| w.violated.len() == 1).collect();
+    let res: Vec<Vec<(String, String)>> = ws.par_iter().map(label_problems).collect();
+    let mut n = 0u64;
+    for (w, probs) in ws.iter().zip(res.iter()) {
+        n += 1;
+        for (k, what) in probs {
+            // key: code + defect class + use site when the fault is a use-site fault
+            let site = w.labels.iter().find(|l| l.starts_with("site=")).cloned().unwrap_or_default();
+            let key = if k.starts_with("P0015") { format!("world-label/{}/{}", k, site) } else { format!("world-label/{}", k) };
+            ctx.fail(&key, &format!("[{}] {}", w.labels.join(","), what), json!({"mode":"world-label","labels": w.labels, "text": w.text()}));
+        }
+    }
+    ctx.evaluations += n;
+    ctx.transitions += n;
+    ctx.outcome_n("planted-fault label checks", n);
+    ctx.extra.insert("single_fault_worlds_with_label_check".into(), json!(n));
+}
+
+pub fn replay_label(case: &Value) -> Result<String, String> {
+    let labels: Vec<String> = case["labels"].as_array().ok_or("labels")?.iter().map(|x| x.as_str().unwrap_or("").to_string()).collect();
+    let ws = worlds(1);
+    let w = ws.iter().find(|w| w.labels == labels).ok_or("world is not in the enumerated space any more")?;
+    let p = label_problems(w);
+    if p.is_empty() {
+        Ok("labels lie inside the faulty declaration on lexeme boundaries".into())
+    } else {
+        Err(format!("{:?}", p))
+    }
 }
